@@ -129,7 +129,7 @@ func (w *wsWorld) alive() bool {
 		return false
 	}
 	defer c.Close()
-	r, err := wsCall(c, `{"jsonrpc":"2.0","id":1,"method":"eth_subscribe","params":["newHeads"]}`, 10*time.Second)
+	r, err := wsCall(c, `{"jsonrpc":"2.0","id":1,"method":"eth_subscribe","params":["newHeads"]}`, longWait)
 	if err != nil {
 		fmt.Println("WS alive: subscribe failed:", err)
 		return false
@@ -140,8 +140,8 @@ func (w *wsWorld) alive() bool {
 		return false
 	}
 	got := make(chan bool, 1)
-	go func() { got <- wsWaitNotification(c, id, 10*time.Second) }()
-	for i := 0; i < 200; i++ {
+	go func() { got <- wsWaitNotification(c, id, longWait) }()
+	for i := 0; i < 5000; i++ {
 		_ = w.f.pushHeader(qHeader, int64(1000+i))
 		select {
 		case ok := <-got:
@@ -163,7 +163,7 @@ func TestChildWs(t *testing.T) {
 		in := pendingInputs(t)[mode[len("ws:pending:"):]]
 		c, err := w.dial()
 		require.NoError(t, err)
-		r, err := wsCall(c, `{"jsonrpc":"2.0","id":1,"method":"eth_subscribe","params":["newPendingTransactions"]}`, 10*time.Second)
+		r, err := wsCall(c, `{"jsonrpc":"2.0","id":1,"method":"eth_subscribe","params":["newPendingTransactions"]}`, longWait)
 		require.NoError(t, err)
 		fmt.Printf("WS subscribed %v\n", r["result"])
 		w.f.pushTx(qTx, in)
@@ -340,8 +340,12 @@ func wsStress(t *testing.T, w *wsWorld) {
 	go func() { wg.Wait(); close(done) }()
 	select {
 	case <-done:
-	case <-time.After(dur + 60*time.Second):
+	case <-time.After(dur + 2*longWait):
+		// every client call has its own deadline, so the clients themselves cannot hang; whatever the dump shows decides
 		fmt.Println("WSSTRESS deadlock: clients stuck")
+		for _, g := range goroutines() {
+			fmt.Println(g.stack + "\n")
+		}
 		os.Exit(3)
 	}
 	close(stop)
@@ -362,16 +366,22 @@ func rbytesPs(r *Rng, n int) []byte {
 	return b
 }
 
-func runWsChild(t *testing.T, mode string, env ...string) (bool, string) {
+// runWsChild: survived = the child did all its work and the server was still usable; died = it ended by a panic / fatal
+// error of the code under test, or with a dump showing server goroutines blocked for minutes, or the server no longer
+// answered a fresh client that waited longWait. Neither = no verdict (slow machine, harness failure).
+func runWsChild(t *testing.T, mode string, env ...string) (survived, died bool, out string) {
 	exe, err := os.Executable()
 	require.NoError(t, err)
-	cmd := exec.Command(exe, "-test.run", "^TestChildWs$", "-test.count", "1", "-test.timeout", "600s")
+	cmd := exec.Command(exe, "-test.run", "^TestChildWs$", "-test.count", "1", "-test.timeout", "3000s")
 	cmd.Env = append(append(os.Environ(), "VERIF_PUBSUB_CHILD="+mode), env...)
 	var buf bytes.Buffer
 	cmd.Stdout, cmd.Stderr = &buf, &buf
 	runErr := cmd.Run()
-	out := buf.String()
-	return runErr == nil && strings.Contains(out, "WS survived"), out
+	out = buf.String()
+	survived = runErr == nil && strings.Contains(out, "WS survived")
+	died = !survived && (diedByPanic(runErr, out) || strings.Contains(out, "alive=false") ||
+		minutesBlocked(out, "evermint/v12/rpc.", "eth/filters.", "rpc/ethereum/pubsub."))
+	return
 }
 
 func wsCrashSignature(prefix, out string) (string, string) {
